@@ -37,6 +37,13 @@ func profileFor(r *prng.R, k int, thorough bool) profile {
 	}
 }
 
+func b2i(b bool) int {
+	if b {
+		return 1
+	}
+	return 0
+}
+
 func main() {
 	f := hx.ParseFlags()
 	o := hx.NewOut(f.Out)
@@ -65,6 +72,27 @@ func main() {
 			pf.steps *= 2
 		}
 		opts := clusterOpts{n: nv, verbose: verbose, stateRoot: r.Chance(1, 4), maxTxPerBlock: uint16(2 + r.Intn(6)), memPoolSize: 50}
+		// Boundary load: in half of the cases a handful of the generated transactions (system fee
+		// 100000..140000, 398 bytes with 4 validators, 637 with 7) crosses MaxBlockSystemFee or
+		// MaxBlockSize, so proposals have to be cut exactly at the limit (ApplyPolicyToTxSet) —
+		// one transaction too many and every backup rejects the proposal (verifyBlock).
+		limits := "default"
+		switch r.Intn(4) {
+		case 0:
+			limits = "sysfee"
+			opts.maxBlockSysFee = 250000 + int64(r.Intn(4))*50000
+		case 1:
+			limits = "size"
+			txSize, base := 398, 458
+			if nv == 7 {
+				txSize, base = 637, 697
+			}
+			if opts.stateRoot {
+				base += 32
+			}
+			opts.maxBlockSize = uint32(base + 2*txSize + txSize/2 + r.Intn(2*txSize))
+			opts.maxTxPerBlock = 8
+		}
 		cl, err := newCluster(dir, opts)
 		if err != nil {
 			fmt.Fprintln(os.Stderr, "cluster:", err)
@@ -79,8 +107,9 @@ func main() {
 			run.line(fmt.Sprintf("start %d", nd.idx))
 			run.settle(nd)
 		}
+		run.tight = limits != "default"
 		// some transactions to start with
-		for i := r.Intn(4); i > 0; i-- {
+		for i := r.Intn(4) + 2*b2i(run.tight); i > 0; i-- {
 			var to []int
 			for j := range cl.nodes {
 				if r.Chance(3, 4) {
@@ -98,6 +127,7 @@ func main() {
 		}
 		_, hi := run.heights()
 		o.Count("profile:" + pf.name)
+		o.Count("limits:" + limits)
 		o.Count(fmt.Sprintf("validators:%d", nv))
 		o.Add("heights", int(hi))
 		o.Add("events", run.events)
